@@ -3,6 +3,7 @@ import CallbagModel.Closed.RelayPipe
 import CallbagModel.Closed.TakePipe
 import CallbagModel.Inv.ComposeClosed
 import CallbagModel.Inv.ComposeComplete
+import CallbagModel.Closed.Linear
 /-!
 # C06 — iterable programming: pull pipelines compute the corresponding list function
 
@@ -156,5 +157,17 @@ theorem C06_closed_filter_map_take_correct {ι α β : Type} (next : ι → Opti
       BasicSafe s ∧ applied s.tr <+: ((xs.filter p).map f).take n ∧
         (s.stack = [] → s.tr ≠ [] → applied s.tr = ((xs.filter p).map f).take n) :=
   fromIter_filter_map_take_forEach_complete next it0 xs hx p f n hn
+
+/-! ## every linear program, quantified over the program SYNTAX, for exactly the machines the differential check runs
+
+`Closed.chainM xs ss` is the term `cbdrv pipe` builds from a program text (`Closed/LinearDef.lean` is shared by the driver and by this
+theorem); `chainPipe xs ss : Pipe` is the same program as syntax of `Ops/Pipeline.lean`, so `listSem` here is the `listSem` of the L1
+theorems above. -/
+
+theorem C06_every_linear_program (xs : List Int) (ss : List Closed.Stg) (hpos : ∀ n, Closed.Stg.take n ∈ ss → 0 < n) :
+    ∀ s, SReach (Closed.thenM (Closed.chainM xs ss) Closed.forEachM).M s →
+      BasicSafe s ∧ applied s.tr <+: listSem (Closed.chainPipe xs ss) ∧
+      (s.stack = [] → s.tr ≠ [] → applied s.tr = listSem (Closed.chainPipe xs ss)) :=
+  Closed.linear_correct xs ss hpos
 
 end Cb.Thm
